@@ -19,14 +19,22 @@ Definition anear (a b : Q) : bool :=
 
 Definition sentinel : Q := 1000000000000000000000000000000.
 
+(* Each recorded answer comes with the ARGUMENTS of the public call that produced it (argument digest): the model's oracle answers
+   only when the arguments IT passes are those; otherwise it answers the sentinel and the comparison with the implementation's
+   setup fails -- so a shadow construction that calls the kernels with other arguments than the model (or than the code) is
+   noticed.  [None] = unchecked (only for hand-built tables of the API cases). *)
 Record otable := {
-  t_snell_inv : list (Q * Q * option Q);              (* wavelength, |external|, answer *)
+  t_snell_inv : list (Q * Q * option Q);              (* wavelength, external angle, answer *)
   t_snell_ext : option Q;
   t_nm_theta : option Q;
   t_dkz0 : Q;
   t_nm_period : option Q;
   t_idler_theta : option Q;
-  t_waist_pos : list (Q * polarization * option Q)    (* wavelength, polarization, answer *)
+  t_waist_pos : list (Q * polarization * option Q);   (* wavelength, polarization, answer *)
+  t_snell_ext_args : option (list Q);     (* signal wavelength, theta, phi; crystal theta, phi *)
+  t_nm_theta_args : option (list Q);      (* external angle; signal wavelength, phi; pump wavelength; crystal phi *)
+  t_dkz0_args : option (list Q);          (* signal wavelength, theta, phi; pump wavelength; crystal theta, phi *)
+  t_idler_theta_args : option (list Q)    (* signal wavelength, theta, phi; pump wavelength; crystal theta, phi; signed poling period (0 = off) *)
 }.
 
 Fixpoint find_snell (l : list (Q * Q * option Q)) (w e : Q) : option Q :=
@@ -40,13 +48,30 @@ Fixpoint find_waist (l : list (Q * polarization * option Q)) (w : Q) (p : polari
   | (w', p', r) :: rest => if qnear w w' && pol_eqb p p' then r else find_waist rest w p
   end.
 
+Fixpoint args_near (a b : list Q) : bool :=
+  match a, b with
+  | [], [] => true
+  | x :: a', y :: b' => anear x y && args_near a' b'
+  | _, _ => false
+  end.
+Definition digest_ok (recorded : option (list Q)) (actual : list Q) : bool :=
+  match recorded with None => true | Some r => args_near r actual end.
+Definition signed_period (pp : poling Q) : Q :=
+  match pp with PolOff => 0 | PolOn p Pos _ => p | PolOn p Neg _ => - p end.
+
 Definition oracles_of_table (t : otable) : oracles Q := {|
   o_snell_inv := fun b e _ => find_snell (t_snell_inv t) (b_wavelength b) e;
-  o_snell_ext := fun _ _ => t_snell_ext t;
-  o_nm_theta := fun _ _ _ _ => t_nm_theta t;
-  o_dkz0 := fun _ _ _ => t_dkz0 t;
-  o_nm_period := fun _ _ _ => t_nm_period t;
-  o_idler_theta := fun _ _ _ _ => t_idler_theta t;
+  o_snell_ext := fun b cs =>
+    if digest_ok (t_snell_ext_args t) [b_wavelength b; b_theta b; b_phi b; cs_theta cs; cs_phi cs] then t_snell_ext t else Some sentinel;
+  o_nm_theta := fun cs e s p =>
+    if digest_ok (t_nm_theta_args t) [e; b_wavelength s; b_phi s; b_wavelength p; cs_phi cs] then t_nm_theta t else Some sentinel;
+  o_dkz0 := fun s p cs =>
+    if digest_ok (t_dkz0_args t) [b_wavelength s; b_theta s; b_phi s; b_wavelength p; cs_theta cs; cs_phi cs] then t_dkz0 t else sentinel;
+  o_nm_period := fun s p cs =>
+    if digest_ok (t_dkz0_args t) [b_wavelength s; b_theta s; b_phi s; b_wavelength p; cs_theta cs; cs_phi cs] then t_nm_period t else Some sentinel;
+  o_idler_theta := fun s p cs pp =>
+    if digest_ok (t_idler_theta_args t) [b_wavelength s; b_theta s; b_phi s; b_wavelength p; cs_theta cs; cs_phi cs; signed_period pp]
+    then t_idler_theta t else Some sentinel;
   o_waist_pos := fun _ w p => find_waist (t_waist_pos t) w p
 |}.
 
